@@ -6,9 +6,11 @@ import (
 	"verif/harness/c02"
 	"verif/harness/c04"
 	"verif/harness/c05"
+	"verif/harness/c06"
 	"verif/harness/c08"
 	"verif/harness/c12"
 	"verif/harness/c17"
+	"verif/harness/c19"
 )
 
 type Entry func(args []int64)
@@ -20,6 +22,7 @@ func reg(pkg, fn string, e Entry) { Registry["verif/harness/"+pkg+"."+fn] = e }
 func init() {
 	reg("c01", "Step", func(a []int64) { c01.Step(int(a[0]), int(a[1]), int(a[2]), int(a[3])) })
 	reg("c02", "Lockstep", func(a []int64) { c02.Lockstep(int(a[0]), int(a[1])) })
+	reg("c06", "Program", func(a []int64) { c06.Program(a[0], int(a[1]), int(a[2]), int(a[3])) })
 	reg("c08", "Step", func(a []int64) { c08.Step(int(a[0]), int(a[1]), int(a[2])) })
 	reg("c12", "StepLemma", func(a []int64) { c12.StepLemma(int(a[0]), int(a[1]), int(a[2])) })
 	reg("c12", "RunUntil", func(a []int64) { c12.RunUntil(int(a[0]), int(a[1]), int(a[2])) })
@@ -32,6 +35,8 @@ func init() {
 	reg("c05", "Console", func(a []int64) { c05.Console(int(a[0])) })
 	reg("c05", "BusPages", func(a []int64) { c05.BusPages(int(a[0])) })
 	reg("c05", "PakPages", func(a []int64) { c05.PakPages(int(a[0])) })
+	reg("c19", "Data", func(a []int64) { c19.Data(int(a[0]), int(a[1]), int(a[2])) })
+	reg("c19", "DrySequence", func(a []int64) { c19.DrySequence(int(a[0]), int(a[1])) })
 	reg("c17", "UnpackPack", func(a []int64) { c17.UnpackPack() })
 	reg("c17", "PackUnpack", func(a []int64) { c17.PackUnpack() })
 	reg("c17", "MulDiv", func(a []int64) { c17.MulDiv() })
